@@ -714,6 +714,9 @@ class Engine(ExprMixin, CallMixin, StmtMixin):
         for n, v in q.env.items():
             if isinstance(v.ty, T.Obj) and n in env:
                 env[n] = v
+        for n in (self.cur.modifies_args if self.cur is not None else ()):
+            if n in q.env and n in env:
+                env[n] = q.env[n]          # a list / dict argument the contract declares as modified in place: its final content
         return env
 
     def exit_normal(self, c, q, res):
